@@ -236,6 +236,8 @@ func (w *worker) initStdPackage(m *machine, pkg *ssa.Package) {
 		return
 	}
 	saveInstr, saveDepth, savePC := m.curInstr, m.depth, m.pc
+	saveUnwind, saveAlloc := m.unwind, m.allocMax
+	m.unwind, m.allocMax = 0, 0
 	func() {
 		defer func() {
 			if r := recover(); r != nil {
@@ -253,6 +255,7 @@ func (w *worker) initStdPackage(m *machine, pkg *ssa.Package) {
 		m.callFunction(nil, init, nil, nil)
 	}()
 	m.curInstr, m.depth, m.pc = saveInstr, saveDepth, savePC
+	m.unwind, m.allocMax = saveUnwind, saveAlloc
 }
 
 type AssertStat struct {
